@@ -1008,6 +1008,21 @@ class Walker:
                     ctx.fail("C07.applied", "phase!=programmed+ref",
                              f"{name}: scheduled phase {float(s[0].phase)}, programmed "
                              f"{programmed} + ref {ref}")
+            else:
+                # drift-corrected EOM pulse: the correction moves the reference before the
+                # pulse and the post-phase-shift after it: scheduled phase = programmed +
+                # (reference after the call - post_phase_shift), whatever the drift is
+                # worth (its value is C15's subject)
+                off = float(s[0].phase) - programmed - ref
+                for q in T:
+                    dref = post_refs.get((basis, q), 0.0) - pre_refs.get((basis, q), 0.0)
+                    if circ(dref - off, float(op.get("pps", 0.0))) > 1e-9:
+                        ctx.fail("C07.applied", "drift_corrected_pulse:ref_change-offset!=post_phase_shift",
+                                 f"{name}: phase offset {off % TWO_PI}, reference change {dref % TWO_PI}, "
+                                 f"post_phase_shift {op.get('pps', 0.0)}")
+                        break
+                if op.get("pps"):
+                    self.stats["nt_c07"] += 1
             barrier = max([self.pre_shift_t.get((basis, q), 0) for q in T] or [0])
             if s[1] < barrier:
                 ctx.fail("C07.barrier", "starts_before_last_shift",
